@@ -803,3 +803,50 @@ package keeper
 //@ modifies raw
 //@ ensures [C19,C15] record_price_terms_and_ownership_indexes_written: err == NoErr ==> raw == wrBind1(old(raw), svcBinding)
 //@ ensures [C19] fails_only_on_unparsable_pricing: (err == NoErr) == (parsePricingErr(svcBinding.Pricing) == NoErr)
+
+// ---------------------------------------------------------------- parameter getters: each reads the subspace under the key that ParamSetPairs registers for its field
+//@ func (Keeper).MaxRequestTimeout
+//@ vars (keeper.Keeper).MaxRequestTimeout: k=github.com/irismod/service/keeper.Keeper#0 ctx=github.com/cosmos/cosmos-sdk/types.Context#0 res=int64#0
+//@ props C20 C04 C07 C14 C06
+//@ ensures reads_its_own_parameter: res == params.MaxRequestTimeout
+
+//@ func (Keeper).MinDepositMultiple
+//@ vars (keeper.Keeper).MinDepositMultiple: k=github.com/irismod/service/keeper.Keeper#0 ctx=github.com/cosmos/cosmos-sdk/types.Context#0 res=int64#0
+//@ props C20 C04 C07 C14 C06
+//@ ensures reads_its_own_parameter: res == params.MinDepositMultiple
+
+//@ func (Keeper).MinDeposit
+//@ vars (keeper.Keeper).MinDeposit: k=github.com/irismod/service/keeper.Keeper#0 ctx=github.com/cosmos/cosmos-sdk/types.Context#0 res=github.com/cosmos/cosmos-sdk/types.Coins#0
+//@ props C20 C04 C07 C14 C06
+//@ ensures reads_its_own_parameter: res == params.MinDeposit
+
+//@ func (Keeper).ServiceFeeTax
+//@ vars (keeper.Keeper).ServiceFeeTax: k=github.com/irismod/service/keeper.Keeper#0 ctx=github.com/cosmos/cosmos-sdk/types.Context#0 res=github.com/cosmos/cosmos-sdk/types.Dec#0
+//@ props C20 C04 C07 C14 C06
+//@ ensures reads_its_own_parameter: res == params.ServiceFeeTax
+
+//@ func (Keeper).SlashFraction
+//@ vars (keeper.Keeper).SlashFraction: k=github.com/irismod/service/keeper.Keeper#0 ctx=github.com/cosmos/cosmos-sdk/types.Context#0 res=github.com/cosmos/cosmos-sdk/types.Dec#0
+//@ props C20 C04 C07 C14 C06
+//@ ensures reads_its_own_parameter: res == params.SlashFraction
+
+//@ func (Keeper).ComplaintRetrospect
+//@ vars (keeper.Keeper).ComplaintRetrospect: k=github.com/irismod/service/keeper.Keeper#0 ctx=github.com/cosmos/cosmos-sdk/types.Context#0 res=time.Duration#0
+//@ props C20 C04 C07 C14 C06
+//@ ensures reads_its_own_parameter: res == params.ComplaintRetrospect
+
+//@ func (Keeper).ArbitrationTimeLimit
+//@ vars (keeper.Keeper).ArbitrationTimeLimit: k=github.com/irismod/service/keeper.Keeper#0 ctx=github.com/cosmos/cosmos-sdk/types.Context#0 res=time.Duration#0
+//@ props C20 C04 C07 C14 C06
+//@ ensures reads_its_own_parameter: res == params.ArbitrationTimeLimit
+
+//@ func (Keeper).TxSizeLimit
+//@ vars (keeper.Keeper).TxSizeLimit: k=github.com/irismod/service/keeper.Keeper#0 ctx=github.com/cosmos/cosmos-sdk/types.Context#0 res=uint64#0
+//@ props C20 C04 C07 C14 C06
+//@ ensures reads_its_own_parameter: res == params.TxSizeLimit
+
+//@ func (Keeper).BaseDenom
+//@ vars (keeper.Keeper).BaseDenom: k=github.com/irismod/service/keeper.Keeper#0 ctx=github.com/cosmos/cosmos-sdk/types.Context#0 res=string#0
+//@ props C20 C04 C07 C14 C06
+//@ ensures reads_its_own_parameter: res == params.BaseDenom
+
